@@ -34,8 +34,12 @@ def split(args: Sequence[str]) -> tuple[Sequence[str], Sequence[str]]:
         if a in ["-m", "--module"]:
             i = min(i + 1, len(args) - 1)
             break
+        elif a.startswith("--module=") or (a.startswith("-m") and not a.startswith("--")):
+            # module is attached to the flag, eg: --module=pytest or -mpytest
+            break
         elif a.startswith("-"):
-            in_flag = True
+            # the next arg is the flag's value, unless it is attached to the flag, eg: --db_path=foo or -dfoo
+            in_flag = a in ["-d", "--db_path"]
         elif not in_flag:
             break
         else:
